@@ -287,12 +287,21 @@ def isNullable (o : JObj) : Bool :=
   | some (.bool true) => true
   | _ => false
 
-/-- does the datum satisfy the schema?  `root` / `ref`: the named schema a `$ref` points to -/
+/-- the `type` keyword of an object fails on the datum (then nothing else needs evaluating) -/
+def typeFails (o : JObj) (x : PyVal) : Bool :=
+  match jGet o "type" with
+  | some (.str t) => (match typeOk t x with | some false => true | _ => false)
+  | _ => false
+
+/-- does the datum satisfy the schema?  `root` / `ref`: the named schema a `$ref` points to.
+    `nullable` first ("… or null"), then `type` (a datum of the wrong type is rejected whatever the other
+    keywords say), then every keyword, strictly. -/
 def evalSchema (root : J) (ref : Option (List Nat)) : Nat → J → PyVal → Option Bool
   | 0, _, _ => none
   | _ + 1, .bool b, _ => some b
   | n + 1, .obj o, x =>
     if isNullable o && (match x with | .none => true | _ => false) then some true
+    else if typeFails o x then some false
     else allM (fun kv => evalKw (evalSchema root ref n) root ref o kv.1 kv.2 x) o
   | _ + 1, _, _ => none
 
